@@ -38,6 +38,7 @@ func runC03UDP(t *testing.T, e *worlds.Env, tier string) (bool, any) {
 	var ups *worlds.ProxyUps
 	var addrs []string
 	echo := false
+	abortFirst := false
 	client := worlds.UDPClientAddr(1)
 	e.Run(t, func() func() bool {
 		tp := e.T
@@ -52,8 +53,15 @@ func runC03UDP(t *testing.T, e *worlds.Env, tier string) (bool, any) {
 			dials = append(dials, "udp/"+addr)
 			ups.Add("udp", addr, tp.Pick("dial-lat-ms", 0, 0, 5))
 		}
+		// in one run of four the first upstream connection is cut by the upstream after its first
+		// datagram (port unreachable): that association's upstream side is over while the client
+		// may go on; what follows the idle expiry must be served by a fresh association as ever
+		abortFirst = tp.Prob(1, 4, "upstream-aborts-first")
 		ups.ScriptFor = func(addr string, idx int) *worlds.UpScript {
 			sc := &worlds.UpScript{Mode: worlds.UpSink, AbortAt: -1}
+			if abortFirst && idx == 0 {
+				sc.AbortAt = 1
+			}
 			if echo && addr == addrs[0] {
 				sc.Mode = worlds.UpEcho // one peer answers: replies of several peers would interleave arbitrarily
 			}
@@ -136,6 +144,12 @@ func runC03UDP(t *testing.T, e *worlds.Env, tier string) (bool, any) {
 		for _, r := range recs {
 			sample.UpRecv = append(sample.UpRecv, len(r.Received))
 		}
+		// the server's socket is shared by all clients: nothing a client's connection does may leave a
+		// deadline on it (the loop's reads would fail for everybody from then on)
+		if n := uw.Sock.DeadlineErrsSnapshot(); n > 20 {
+			fail("udp-socket-deadline", "%d reads of the server's UDP socket failed with a deadline error: a read deadline was set on the socket all clients share, and left there", n)
+			return
+		}
 		if e.S.Capped {
 			// bounded liveness: without half-close the relay ends when the association idles out
 			// (30s after the client's last datagram); the time cap is minutes beyond that
@@ -155,6 +169,51 @@ func runC03UDP(t *testing.T, e *worlds.Env, tier string) (bool, any) {
 			}
 		}
 		sample.Arrived = len(arr)
+		if abortFirst {
+			// an association whose upstream side was cut mixes what it lost and what it relayed: here only
+			// what holds regardless - every connection received a contiguous run of the client's
+			// datagrams, a datagram that follows a silence longer than the idle timeout is served (by a
+			// fresh association: the earlier one has expired), and everything is cleaned up
+			for _, r := range recs {
+				if len(r.Received) == 0 {
+					continue
+				}
+				ok := false
+				for i := range arr {
+					if isPrefixOfConcat(r.Received, arr[i:]) {
+						ok = true
+						break
+					}
+				}
+				if !ok {
+					fail("upstream-stream", "upstream %s connection #%d received %d bytes that are not a contiguous run of the client's datagrams (first bytes % x)", r.Addr, r.Idx, len(r.Received), head(r.Received, 12))
+					return
+				}
+			}
+			for i := 1; i < len(arr); i++ {
+				if arr[i].At-arr[i-1].At < 30600*time.Millisecond || len(arr[i].Data) < 8 {
+					continue
+				}
+				served := false
+				for _, r := range recs {
+					if bytes.Contains(r.Received, arr[i].Data) {
+						served = true
+					}
+				}
+				if !served {
+					fail("upstream-stream", "datagram #%d of the client arrived at %v, %v after the one before it (idle timeout 30s): every earlier association had expired, yet it reached no upstream connection", i, arr[i].At, arr[i].At-arr[i-1].At)
+					return
+				}
+			}
+			if n := openUp(recs); n > 0 {
+				fail("upstream-not-closed", "%d of %d upstream connections were never closed by the proxy after its associations ended", n, len(recs))
+				return
+			}
+			if len(handlersLeft) > 0 {
+				fail("handler-stuck", "handler goroutines still alive after every association ended: %v", handlersLeft)
+			}
+			return
+		}
 		// client -> upstreams: per peer address, the connections in dial order each received a
 		// contiguous in-order run of the client's arrivals; runs do not overlap
 		excusable := func(d simnet.Dgram, beforeIdx int) bool {
